@@ -860,7 +860,12 @@ class _ExecutorManagerThread(threading.Thread):
         # Cancel pending work items if requested.
         if self.executor_flags.kill_workers:
             while self.pending_work_items:
-                _, work_item = self.pending_work_items.popitem()
+                try:
+                    _, work_item = self.pending_work_items.popitem()
+                except KeyError:
+                    # The queue feeder thread removes the items it fails to
+                    # send from this dict concurrently: it took the last one.
+                    break
                 try:
                     work_item.future.set_exception(
                         ShutdownExecutorError(
